@@ -372,7 +372,9 @@ impl Parse for ConversionsAttribute {
 
         while !input.is_empty() {
             let ahead = input.fork();
-            let res = if ahead.peek(syn::Ident::peek_any) {
+            // `owned`/`ref`/`ref_mut` are keywords here only as a whole word, not as the first
+            // segment of a type's path (`owned::Type`).
+            let res = if ahead.peek(syn::Ident::peek_any) && !ahead.peek2(token::PathSep) {
                 ahead.call(syn::Ident::parse_any).map(Into::into)
             } else {
                 ahead.parse::<syn::Path>()
